@@ -6,7 +6,12 @@ requests travel through its request channel):
 
     {"a":"req","ns":str,"cid":int,"metric":NAME,"start":null|µs|[µs,offset min]|[µs,"Zone"]}   create the registry
                                                                       receiver (by channel name), then request
+        optional "derive": [i, "copy"|"inplace"]: the request OBJECT is not constructed afresh but derived from the
+        object of the earlier request action i after its channel name was read — `copy.copy` + field assignment, or
+        (direct mode, object not kept by the SDK) mutation in place; the subscriber side always uses a fresh object
     {"a":"msg","cid":int,"ts":µs,"fields":[[attr,[rat|null,…]],…]}     the fake API streams one data message
+    {"a":"fail_api","n":k}                                            once the SDK is idle: the next k `components()` calls raise
+    {"a":"sleep","us":µs}                                             `await asyncio.sleep` on the virtual clock
     {"a":"yield","n":k}                                               k × `await asyncio.sleep(0)`
 
 The microgrid API is a fake client: `components()` lists the case's components, `meter_data`/`inverter_data`/
@@ -214,6 +219,11 @@ def message_tags(case: dict) -> set[str]:
                     tags.add("identical-consecutive-messages")
         if any(m["ts"] <= 0 for m in ms):
             tags.add("ts-at-or-before-epoch")
+    for a in case["actions"]:
+        if a["a"] == "req" and a.get("derive"):
+            tags.add(f"request-object-{a['derive'][1]}-of-earlier")
+        if a["a"] == "fail_api":
+            tags.add("actor-restart-after-api-failure")
     reqs = [a for a in case["actions"] if a["a"] == "req" and a["start"] is not None]
     by_list: dict[tuple, list] = {}
     for a in reqs:
@@ -280,6 +290,10 @@ def gen_case(rng: random.Random, size: int, allow_unsupported: bool = True) -> d
     last_ts: dict[int, int] = {}
     last_fields: dict[int, list] = {}
     start_w = ts_rng.choice([6, 6, 30, 60])          # some cases are mostly about start times
+    derive_p = ts_rng.choice([0.0, 0.0, 0.2, 0.5])   # P(a request object is derived from an earlier one)
+    crash_p = 0.08 if case["mode"] == "actor" and ts_rng.random() < 0.5 else 0.0
+    stored: dict[int, bool] = {}                     # action index -> the SDK keeps this request object
+    seen_keys: set[tuple] = set()
 
     def msg(cid: int) -> None:
         seq[cid] += 1
@@ -322,8 +336,41 @@ def gen_case(rng: random.Random, size: int, allow_unsupported: bool = True) -> d
             # few metrics and namespaces so that same-metric lists, new dict keys and duplicates all occur
             metric = rng.choice(ms[:3] + [rng.choice(ms)])
             r = {"ns": rng.choice(namespaces), "cid": cid, "metric": metric, "start": None}
-        acts.append({"a": "req", **r})
+        act = {"a": "req", **r}
+        prev = [i for i, a in enumerate(acts) if a["a"] == "req"]
+        if prev and ts_rng.random() < derive_p:
+            # the client re-uses an earlier request OBJECT (whose channel name was already read)
+            src_i = ts_rng.choice(prev)
+            how = "copy"
+            if case["mode"] == "direct" and not stored[src_i] and ts_rng.random() < 0.4:
+                how = "inplace"      # an object the SDK did not keep (duplicate / unknown / unsupported request)
+            act["derive"] = [src_i, how]
+            if how == "inplace":
+                stored[src_i] = True   # do not mutate it a second time after this submission
+        key = chan_key(r)
+        stored[len(acts)] = request_class(case, r) == "ok" and key not in seen_keys
+        if request_class(case, r) == "ok":
+            seen_keys.add(key)
+        acts.append(act)
         requested.append(r)
+
+    def crash_episode() -> None:
+        """The API fails while the actor resolves an unknown component id: `_run` raises, the `Actor` base class restarts
+        it after RESTART_DELAY (2 s, virtual clock); afterwards identical requests are repeated."""
+        acts.append({"a": "fail_api", "n": 1})
+        acts.append({"a": "req", "ns": "z", "cid": ts_rng.choice([77, 5, 0]), "metric": "ACTIVE_POWER", "start": None})
+        stored[len(acts) - 1] = False
+        if ts_rng.random() < 0.5:
+            msg(focus)
+        acts.append({"a": "sleep", "us": ts_rng.choice([2_000_001, 2_500_000, 5_000_000])})
+        ok = [r for r in requested if request_class(case, r) == "ok"]
+        for _ in range(ts_rng.randint(1, 3)):
+            if ok:
+                rr = dict(ts_rng.choice(ok))
+                acts.append({"a": "req", **rr})
+                stored[len(acts) - 1] = False
+                requested.append(rr)
+        msg(focus)
 
     def yld(choices=(0, 1, 1, 2, 3, 5)) -> None:
         n = rng.choice(choices)
@@ -364,6 +411,8 @@ def gen_case(rng: random.Random, size: int, allow_unsupported: bool = True) -> d
             yld()
         else:
             yld((1, 2, 5, 8))
+        if crash_p and ts_rng.random() < crash_p:
+            crash_episode()
     return case
 
 
@@ -496,9 +545,14 @@ async def _run_async(case: dict) -> dict:
 
         return method
 
+    fail_api = [0]
+
     async def components() -> list:
         if yield_api:
             await asyncio.sleep(0)
+        if fail_api[0] > 0:
+            fail_api[0] -= 1
+            raise RuntimeError("microgrid API unavailable")
         return [Component(component_id=c, category=ComponentCategory[cat]) for c, cat in comps.items()]
 
     client = mock.MagicMock(name="api_client")
@@ -519,40 +573,57 @@ async def _run_async(case: dict) -> dict:
     patcher.start()
     actor = None
     try:
-        if case["mode"] == "actor":
-            req_chan = Broadcast(name="requests")
-            req_sender = req_chan.new_sender()
-            actor = DataSourcingActor(req_chan.new_receiver(limit=200), registry)
-            src = actor._microgrid_api_source  # pylint: disable=protected-access
-        else:
-            src = MicrogridApiSource(registry)
-        orig_add = src.add_metric
+        sources: list = []            # every MicrogridApiSource that handled a request, in order of first use
+        orig_add = MicrogridApiSource.add_metric
 
-        async def add_metric(request: Any) -> None:
+        async def add_metric(self_src: Any, request: Any) -> None:
+            if self_src not in sources:
+                sources.append(self_src)
             r = {"ns": request.namespace, "cid": request.component_id, "metric": request.metric_id.name,
                  "start": None if request.start_time is None else str(request.start_time)}
             log.append({"e": "request", **r})
             key = chan_key(r)
-            before = src.comp_data_tasks.get(request.component_id)
-            await orig_add(request)
-            if key in seen_requests and src.comp_data_tasks.get(request.component_id) is not before:
+            before = self_src.comp_data_tasks.get(request.component_id)
+            await orig_add(self_src, request)
+            if key in seen_requests and self_src.comp_data_tasks.get(request.component_id) is not before:
                 dup_restarts.append(r)
             seen_requests.add(key)
 
-        src.add_metric = add_metric  # type: ignore[method-assign]
+        add_patcher = mock.patch.object(MicrogridApiSource, "add_metric", new=add_metric)
+        add_patcher.start()
+        src = None
+        if case["mode"] == "actor":
+            req_chan = Broadcast(name="requests")
+            req_sender = req_chan.new_sender()
+            actor = DataSourcingActor(req_chan.new_receiver(limit=200), registry)
+        else:
+            src = MicrogridApiSource(registry)
         if actor is not None:
             actor.start()
             await asyncio.sleep(0)
 
-        for act in case["actions"]:
+        objs: dict[int, Any] = {}
+        for idx, act in enumerate(case["actions"]):
             if act["a"] == "req":
-                request = ComponentMetricRequest(act["ns"], act["cid"], ComponentMetricId[act["metric"]],
-                                                 start_dt(act["start"]))
+                # the subscriber builds its own, fresh request and listens on the channel that names
+                fresh = ComponentMetricRequest(act["ns"], act["cid"], ComponentMetricId[act["metric"]],
+                                               start_dt(act["start"]))
                 key = chan_key(act)
                 if key not in out_recvs:
                     out_recvs[key] = registry.get_or_create(
-                        Sample[Quantity], request.get_channel_name()).new_receiver(limit=100000)
+                        Sample[Quantity], fresh.get_channel_name()).new_receiver(limit=100000)
                     order.append(chan_json(act))
+                request = fresh
+                if act.get("derive"):
+                    import copy
+                    base = objs[act["derive"][0]]
+                    base.get_channel_name()                      # the client has looked at the name of that request
+                    request = copy.copy(base) if act["derive"][1] == "copy" else base
+                    request.namespace, request.component_id = act["ns"], act["cid"]
+                    request.metric_id, request.start_time = ComponentMetricId[act["metric"]], start_dt(act["start"])
+                else:
+                    request.get_channel_name()
+                objs[idx] = request
                 if actor is not None:
                     await req_sender.send(request)
                 else:
@@ -564,6 +635,20 @@ async def _run_async(case: dict) -> dict:
             elif act["a"] == "yield":
                 for _ in range(act["n"]):
                     await asyncio.sleep(0)
+            elif act["a"] == "fail_api":
+                # arm the failure only once the SDK is idle, so that it hits the NEXT request (the one for an unknown id
+                # that follows), not one that is still being processed: losing a valid request to an API outage is not
+                # what C20 is about
+                quiet, last = 0, -1
+                for _ in range(2000):
+                    await asyncio.sleep(0)
+                    quiet = quiet + 1 if len(log) == last else 0
+                    last = len(log)
+                    if quiet >= 12:
+                        break
+                fail_api[0] += act["n"]
+            elif act["a"] == "sleep":
+                await asyncio.sleep(act["us"] / 1_000_000)
             else:
                 raise ValueError(act)
         # drain: run until nothing observable happens for a while
@@ -577,6 +662,10 @@ async def _run_async(case: dict) -> dict:
             else:
                 quiet, last = 0, len(log)
         delivered = [[sample_json(s) for s in list(out_recvs[chan_key(c)]._q)] for c in order]  # pylint: disable=protected-access
+        if src is None:
+            src = sources[0] if sources else getattr(actor, "_microgrid_api_source", None)
+        if src is None:               # the actor never handled a request and keeps no source object
+            src = MicrogridApiSource(registry)
         subs = []
         for c in comps:
             d = src._req_streaming_metrics.get(c, {})  # pylint: disable=protected-access
@@ -590,6 +679,10 @@ async def _run_async(case: dict) -> dict:
         }
     finally:
         patcher.stop()
+        try:
+            add_patcher.stop()
+        except (RuntimeError, NameError, UnboundLocalError):
+            pass
         me = asyncio.current_task()
         if actor is not None:
             try:
